@@ -60,18 +60,23 @@ class Boom(Exception):
     """Private exception raised by a faulty user callable."""
 
 
-class Spy(object):
-    """Counting wrapper around a user callable; raises Boom on its `raise_at`-th invocation."""
+class Abort(BaseException):
+    """An interruption that is not an Exception (what a KeyboardInterrupt / SystemExit inside a user callback looks like)."""
 
-    def __init__(self, fn, raise_at=None):
+
+class Spy(object):
+    """Counting wrapper around a user callable; raises Boom (or `exc`) on its `raise_at`-th invocation."""
+
+    def __init__(self, fn, raise_at=None, exc=None):
         self.fn = fn
         self.n = 0
         self.raise_at = raise_at
+        self.exc = exc or Boom
 
     def __call__(self, *a):
         self.n += 1
         if self.raise_at is not None and self.n == self.raise_at:
-            raise Boom('fault at invocation %d' % self.n)
+            raise self.exc('fault at invocation %d' % self.n)
         return self.fn(*a)
 
 
@@ -365,6 +370,11 @@ def case_cadence(c):
     M = len(frames)
     ts0 = _ts_snapshot(frames)
     t_starts = [float(f.t_start) for f in frames]
+    # the start times the frames were created with are the ones they have (zero included): every offset below is taken from them
+    for m in range(M):
+        if (m == 0 or not cad['over']) and t_starts[m] != float(cad['starts'][m]):
+            V('Frame.__init__', 't_start_not_kept', 'frame %d was created with t_start=%r and reports t_start=%r'
+              % (m, cad['starts'][m], frames[m].t_start))
     if cad['over']:
         slew = cad['slew']
         for m in range(1, M):
@@ -536,7 +546,10 @@ def case_cadence(c):
             for s in SLOTS:
                 total = counts[r].get(s, 0)
                 per_frame = total // len(members) if len(members) else 0
-                for k in range(1, total + 1):
+                # every k with an ordinary exception; the first invocation in the first and in the second member and the very last
+                # one also with an interruption that is not an Exception
+                plan = [(k, Boom) for k in range(1, total + 1)] + [(k, Abort) for k in sorted(set([1, per_frame + 1, total])) if 1 <= k <= total]
+                for k, exc_cls in plan:
                     n_eval += 1
                     extra['fault_runs'] += 1
                     cad2 = _mk_cadence(c)
@@ -547,11 +560,13 @@ def case_cadence(c):
                         sig = _build(c['inj'][r2], c, W, r2)
                         a = dict((x, sig[x]) for x in SLOTS)
                         if r2 == r:
-                            a[s] = Spy(sig[s], raise_at=k)
+                            a[s] = Spy(sig[s], raise_at=k, exc=exc_cls)
                         try:
                             view2.add_signal(a['path'], a['t_profile'], a['f_profile'], a['bp_profile'], **kw)
                         except Boom:
                             raised = 'boom'
+                        except Abort:
+                            raised = 'abort'
                         except Exception as e:
                             raised = type(e).__name__
                     q_fault = (k - 1) // per_frame if per_frame else 0
